@@ -395,6 +395,126 @@ pub fn run_threaded(seed: u64, threads: usize, clones_per_entity: usize, use_upd
 }
 
 //-------------------------------------------------------------------------------------------------------------------
+// Rendezvous stress: the *last* clones of an entity are dropped by different threads at (as nearly as possible) the same
+// instant. Random delays almost never line the final drops up; the decision "am I the last one?" is exactly where a
+// reference count can go wrong, so this stage aims every drop at that moment.
+
+pub struct RendezvousOutcome {
+    pub violations: Vec<(String, String)>,
+    /// entities whose last k clones were dropped together
+    pub entities: u64,
+    /// entities for which the k drop calls overlapped in time (each started before any other had returned)
+    pub overlapped: u64,
+}
+
+pub fn run_rendezvous(seed: u64, k: usize, n_ent: usize, with_children: bool) -> RendezvousOutcome {
+    use std::sync::atomic::AtomicUsize;
+    let mut app = App::new();
+    app.setup_auto_despawn();
+    let ents: Vec<Entity> = (0..n_ent).map(|_| app.world_mut().spawn_empty().id()).collect();
+    let kids: Vec<Option<Entity>> = ents
+        .iter()
+        .enumerate()
+        .map(|(i, e)| {
+            if with_children && i % 3 == 0 {
+                let c = app.world_mut().spawn_empty().id();
+                app.world_mut().entity_mut(c).set_parent(*e);
+                Some(c)
+            } else {
+                None
+            }
+        })
+        .collect();
+    // thread t holds one clone of every entity
+    let mut per_thread: Vec<Vec<AutoDespawnSignal>> = (0..k).map(|_| Vec::with_capacity(n_ent)).collect();
+    for e in ents.iter() {
+        let s = app.world().resource::<AutoDespawner>().prepare(*e);
+        for t in 1..k {
+            per_thread[t].push(s.clone());
+        }
+        per_thread[0].push(s);
+    }
+    let arrived: Arc<Vec<AtomicUsize>> = Arc::new((0..n_ent).map(|_| AtomicUsize::new(0)).collect());
+    let started: Arc<Vec<AtomicUsize>> = Arc::new((0..n_ent).map(|_| AtomicUsize::new(0)).collect());
+    let overlapped: Arc<Vec<AtomicBool>> = Arc::new((0..n_ent).map(|_| AtomicBool::new(true)).collect());
+    let mut handles = vec![];
+    for (t, mine) in per_thread.into_iter().enumerate() {
+        let arrived = arrived.clone();
+        let started = started.clone();
+        let overlapped = overlapped.clone();
+        let mut r = Rng::new(seed.wrapping_mul(131).wrapping_add(t as u64));
+        handles.push(std::thread::spawn(move || {
+            for (i, s) in mine.into_iter().enumerate() {
+                // rendezvous: wait until every holder of entity i is here
+                arrived[i].fetch_add(1, Ordering::SeqCst);
+                let mut spins = 0u64;
+                while arrived[i].load(Ordering::SeqCst) < k {
+                    std::hint::spin_loop();
+                    spins += 1;
+                    if spins % 4096 == 0 {
+                        std::thread::yield_now();
+                    }
+                }
+                // tiny seeded skew so that the relative order of the drops varies
+                for _ in 0..r.below(4) {
+                    std::hint::spin_loop();
+                }
+                started[i].fetch_add(1, Ordering::SeqCst);
+                drop(s);
+                // if some other holder had not even started when this drop returned, the calls did not overlap
+                if started[i].load(Ordering::SeqCst) < k {
+                    overlapped[i].store(false, Ordering::Relaxed);
+                }
+            }
+        }));
+    }
+    let mut violations = vec![];
+    // the main thread collects while the workers run (a collection may fall between two of the final drops)
+    let mut panicked = false;
+    while !handles.iter().all(|h| h.is_finished()) {
+        if std::panic::catch_unwind(std::panic::AssertUnwindSafe(|| garbage_collect_entities(app.world_mut()))).is_err() {
+            panicked = true;
+            break;
+        }
+        // an entity must not disappear before all of its holders have at least started to drop
+        for (i, e) in ents.iter().enumerate() {
+            if started[i].load(Ordering::SeqCst) == 0 && arrived[i].load(Ordering::SeqCst) < k && app.world().get_entity(*e).is_err() {
+                violations.push(("C10/despawned-while-clone-exists".to_string(), format!("rendezvous: entity {i} despawned before any of its {k} holders started to drop")));
+            }
+        }
+        if !violations.is_empty() {
+            break;
+        }
+    }
+    for h in handles {
+        let _ = h.join();
+    }
+    if panicked || std::panic::catch_unwind(std::panic::AssertUnwindSafe(|| garbage_collect_entities(app.world_mut()))).is_err() {
+        violations.push(("C10/gc-panicked".to_string(), "rendezvous: a collection panicked".to_string()));
+        std::mem::forget(app);
+        return RendezvousOutcome { violations, entities: 0, overlapped: 0 };
+    }
+    let mut leaked = vec![];
+    for (i, e) in ents.iter().enumerate() {
+        if app.world().get_entity(*e).is_ok() {
+            leaked.push(i);
+        } else if let Some(c) = kids[i] {
+            if app.world().get_entity(c).is_ok() {
+                violations.push(("C10/descendant-survived".to_string(), format!("rendezvous: the child of entity {i} survived its parent's auto-despawn")));
+            }
+        }
+    }
+    if !leaked.is_empty() {
+        violations.push((
+            "C10/alive-after-final-gc".to_string(),
+            format!("rendezvous: {} of {n_ent} entities survived the collection that followed the simultaneous drop of their last {k} clones on {k} threads (first: {})", leaked.len(), leaked[0]),
+        ));
+    }
+    let ov = overlapped.iter().filter(|b| b.load(Ordering::Relaxed)).count() as u64;
+    RendezvousOutcome { violations, entities: n_ent as u64, overlapped: ov }
+}
+
+//-------------------------------------------------------------------------------------------------------------------
 
 pub struct C10Config {
     pub tier: String,
@@ -463,6 +583,22 @@ pub fn run_check(cfg: &C10Config) -> (usize, Option<String>) {
             sigs.entry(s).or_insert((0, vec![], format!("threaded trial seed={} threads={threads} clones={clones}: {m}", cfg.seed.wrapping_mul(977).wrapping_add(k as u64)))).0 += 1;
         }
     }
+    // rendezvous rounds
+    let rounds = if cfg.trials == 0 { 0 } else if cfg.small { 2 } else { (cfg.trials / 2).max(20) };
+    let mut rv_entities = 0u64;
+    let mut rv_overlapped = 0u64;
+    for k in 0..rounds {
+        let mut r = Rng::new(cfg.seed.wrapping_mul(4447).wrapping_add(k as u64));
+        let holders = if cfg.small { 2 } else { r.range(2, 4) };
+        let n_ent = if cfg.small { 3 } else { 64 };
+        let o = run_rendezvous(cfg.seed.wrapping_mul(389).wrapping_add(k as u64), holders, n_ent, k % 2 == 0);
+        rv_entities += o.entities;
+        rv_overlapped += o.overlapped;
+        for (s, m) in o.violations {
+            sigs.entry(s).or_insert((0, vec![], format!("rendezvous round {k} holders={holders}: {m}"))).0 += 1;
+        }
+    }
+    samples.push(json!({"rendezvous_rounds": rounds, "entities_whose_last_clones_were_dropped_together": rv_entities, "of_which_the_drop_calls_overlapped_in_time": rv_overlapped}));
     samples.push(json!({"threaded_trials": cfg.trials, "thread_counts_used": thread_counts, "collections": t_gcs, "collections_while_some_but_not_all_clones_dropped": t_between, "drops": t_drops, "clones": t_clones}));
     let _ = std::fs::create_dir_all(&cfg.replay_dir);
     let mut total = 0;
@@ -476,8 +612,8 @@ pub fn run_check(cfg: &C10Config) -> (usize, Option<String>) {
         records.push(json!({"signature": sig, "count": count, "message": msg, "replay": path}));
     }
     let distinct = shapes.len() + orderings.len();
-    let inconclusive = if cfg.small { None } else if shapes.len() < 20 || (cfg.trials > 0 && t_between == 0) {
-        Some(format!("coverage floor not met: {} single-threaded shapes, {} collections between first and last drop in threaded trials", shapes.len(), t_between))
+    let inconclusive = if cfg.small { None } else if shapes.len() < 20 || (cfg.trials > 0 && t_between == 0) || (rounds > 0 && rv_overlapped < 50) {
+        Some(format!("coverage floor not met: {} single-threaded shapes, {} collections between first and last drop in threaded trials, {} entities with overlapping final drops", shapes.len(), t_between, rv_overlapped))
     } else {
         None
     };
@@ -489,7 +625,7 @@ pub fn run_check(cfg: &C10Config) -> (usize, Option<String>) {
         "coverage": {
             "evaluations": cfg.sequences + cfg.trials,
             "distinct_nontrivial": distinct,
-            "rule": "single-threaded: seeded sequences of prepare/clone/drop/gc/App::update/manual-despawn/reparent/respawn over 6 entities checked after every op against an exact reference-count + hierarchy model; non-trivial = a collection ran while some but not all clones of an entity had been dropped; distinct = distinct applied-op shapes. threaded: 2-15 workers drop/clone 1-50 signals per entity with seeded spins/yields while the main thread collects; judged with two atomic counters (pre <= real count <= post); distinct = distinct per-entity histories of (clone-count bucket, liveness) across collections per thread count",
+            "rule": "single-threaded: seeded sequences of prepare/clone/drop/gc/App::update/manual-despawn/reparent/respawn over 6 entities checked after every op against an exact reference-count + hierarchy model; non-trivial = a collection ran while some but not all clones of an entity had been dropped; distinct = distinct applied-op shapes. threaded: 2-15 workers drop/clone 1-50 signals per entity with seeded spins/yields while the main thread collects; judged with two atomic counters (pre <= real count <= post); distinct = distinct per-entity histories of (clone-count bucket, liveness) across collections per thread count. rendezvous: per round 64 entities whose last 2-4 clones are held by 2-4 threads that meet at a spin barrier per entity and drop together while the main thread collects; every entity (and child) must be gone after the final collection; the number of entities whose drop calls really overlapped is measured",
             "samples": samples,
             "single_threaded_sequences": cfg.sequences,
             "single_threaded_collections": gcs,
@@ -499,6 +635,9 @@ pub fn run_check(cfg: &C10Config) -> (usize, Option<String>) {
             "threaded_collections": t_gcs,
             "threaded_collections_between_first_and_last_drop": t_between,
             "threaded_distinct_orderings": orderings.len(),
+            "rendezvous_rounds": rounds,
+            "rendezvous_entities": rv_entities,
+            "rendezvous_entities_with_overlapping_final_drops": rv_overlapped,
             "sanitizer_stages": cfg.stage_notes,
         },
         "assumptions": ["monitor counters are updated with SeqCst atomics on the safe side of every real clone/drop, so the monitor cannot itself be the race", "crossbeam channel and Arc are trusted (covered by the TSan/Miri stages in the thorough tier)"],
@@ -512,7 +651,7 @@ pub fn run_check(cfg: &C10Config) -> (usize, Option<String>) {
     }
     let _ = std::fs::write(&cfg.out, serde_json::to_string_pretty(&ev).unwrap());
     println!(
-        "C10 {}: {} single-threaded sequences ({} collections, {} between drops, {} shapes), {} threaded trials ({} collections, {} between first and last drop, {} orderings), {:.1}s; violations: {}",
+        "C10 {}: {} single-threaded sequences ({} collections, {} between drops, {} shapes), {} threaded trials ({} collections, {} between first and last drop, {} orderings), {} rendezvous rounds ({} entities, {} with overlapping final drops), {:.1}s; violations: {}",
         cfg.tier,
         cfg.sequences,
         gcs,
@@ -522,6 +661,9 @@ pub fn run_check(cfg: &C10Config) -> (usize, Option<String>) {
         t_gcs,
         t_between,
         orderings.len(),
+        rounds,
+        rv_entities,
+        rv_overlapped,
         t0.elapsed().as_secs_f64(),
         total
     );
